@@ -121,6 +121,25 @@ def param_case(spec, ctx):
         raise
     except Exception:
         pass
+    # after the estimator has been used, nothing but the documented parameters (and Config fields) may be settable: every
+    # other attribute the instance has grown by then is an unknown parameter name
+    used = c16.make_adapter(m)
+    width = len(m["control"]) + sum(len(r) for r in m["sensors"].values())
+    try:
+        used.transform(np.full((2, width), 0.37))
+    except Exception:
+        used = None
+    if used is not None:
+        known = set(used.get_params()) | set(dataclasses.asdict(used.config))
+        for name in sorted(set(vars(used)) - known) + ["model_", "allowed_keys", "get_params"]:
+            try:
+                used.set_params(**{name: None})
+                accepted = True
+            except Exception:
+                accepted = False
+            if accepted:
+                ctx.fail("unknown-parameter-accepted", f"after transform(), set_params({name}=...) is accepted although {name!r} is not a parameter", spec)
+        ctx.event("unknown_names_after_use_checked")
     with ctx.formak("flatten-roundtrip", spec):
         ad2 = c16.make_adapter(m)
         flat = ad2._flatten_scoring_params()
